@@ -175,7 +175,7 @@ void vr_case(uint64_t seed, uint64_t idx, int profile)
         else if (w < 92) code = 9;
         else if (w < 97) code = 10;
         else if (w < 98) code = 11;
-        else if (w < 99 && op > 20) code = 12;
+        else if (w < 99 && op > 8) code = 12;
         else code = 13;
         vr_fp_mix((uint64_t)code);
         nops_done++;
@@ -319,6 +319,12 @@ void vr_case(uint64_t seed, uint64_t idx, int profile)
             VR_CNT("op_clear");
             cmi_hashheap_clear(hp);
             while (mn) m_del(mn - 1);
+            /* the queue is reused after a clear: nothing from before may still look alive */
+            { struct ent e; e.item[0] = alpha[0]; e.item[1] = alpha[1]; e.item[2] = (void *)(uintptr_t)(++uid); e.item[3] = (void *)(uintptr_t)vr_mix(uid); e.d = 1.0; e.i = 0; if (kind == K_HOLD) e.d = 0.0;
+              uint64_t ak = (keymode == 1) ? (0x7e0000000000ull + 64 * uid) | 1 : 0; if (keymode == 2 && vr_chance(&r, 1, 2)) ak = (0x7e0000000000ull + 64 * uid) | (1ull << 40);
+              uint64_t got = cmi_hashheap_enqueue(hp, e.item[0], e.item[1], e.item[2], e.item[3], ak, e.d, e.i); e.key = got; if (!ak) { if (got <= last_gen) BAD("C02/enqueue-genkey-order", "generated key %" PRIu64 " after clear not above %" PRIu64, got, last_gen); last_gen = got; } m_add(e);
+              for (int q = 0; q < 8 && ndead && vr_nviol == 0; q++) { uint64_t dk = dead[ndead - 1 - vr_below(&r, ndead < 64 ? ndead : 64)]; if (m_find(dk) >= 0) continue; if (cmi_hashheap_is_enqueued(hp, dk)) BAD("C02/is-enqueued-dead", "after clear + re-use, cleared key %" PRIu64 " is reported present", dk); else if (cmi_hashheap_remove(hp, dk)) BAD("C02/remove-dead", "after clear + re-use, remove(cleared key %" PRIu64 ") returned true", dk); }
+              VR_CNT("clear_then_reuse_checked"); }
             break; }
         case 13: { /* reset */
             VR_CNT("op_reset");
